@@ -1,13 +1,39 @@
 import Rooc.Wire
-import Rooc.Oracle
+import Rooc.WireSolve
+import Rooc.SolveOracle
+import Rooc.Milp
 namespace Rooc.Drv.C15
-open Rooc Sexp
+open Rooc Sexp SolverWrap
 
-/-- model requests for C15 (run at `Float` for the exact diff, at `Ext Rat` as oracle). -/
+def decGap {α : Type} [Wire α] : Sexp → Option (Option α)
+  | .atom "none" => some none
+  | .list [.atom "gap", g] => (decNumS g).map some
+  | _ => none
+def decLimit : Sexp → Option (Option Nat)
+  | .atom "none" => some none
+  | .list [.atom "limit", n] => (decNat n).map some
+  | _ => none
+
+/-- model requests for C15: `milp-with <linmodel> <gap> <limit> <raw microlp outcome of the search>`
+(`milp-with-fixed` = the repaired labelling). -/
 def handle (α : Type) [Arith α] [Wire α] : List Sexp → Sexp
+  | [.atom which, lm, gap, limit, out] =>
+    match (LinModel.dec lm : Option (LinModel α)), (decGap gap : Option (Option α)), decLimit limit,
+          (MlpOutcome.dec out : Option (MlpOutcome α)) with
+    | some lm, some gap, some limit, some out =>
+      let o : Milp.Options α := { mipGap := gap, timeLimitNs := limit }
+      if which == "milp-with" then (Milp.solveMilpWith lm o (fun _ => out)).enc lm.vars
+      else if which == "milp-with-fixed" then (Milp.solveMilpWithFixed lm o (fun _ => out)).enc lm.vars
+      else app "err" [.atom "bad-request"]
+    | _, _, _, _ => app "err" [.atom "decode"]
   | _ => app "err" [.atom "bad-request"]
 
-/-- exact oracle: the PROPERTY evaluated on the implementation's own answer. -/
+/-- exact oracle: feasibility of the returned point, label against the certified optimum and the requested gap. -/
 def oracle : List Sexp → Sexp
+  | [.atom "label", lm, gap, limit, res, res0, .atom raw] =>
+    match (LinModel.dec lm : Option (LinModel (Ext Rat))), (decGap gap : Option (Option (Ext Rat))), decLimit limit,
+          (ImplRes.dec res : Option (ImplRes (Ext Rat))), (ImplRes.dec res0 : Option (ImplRes (Ext Rat))) with
+    | some lm, some gap, some limit, some r, some r0 => SolveOracle.checkLabel lm { gap := gap, limitNs := limit } r r0 raw
+    | _, _, _, _, _ => app "err" [.atom "decode"]
   | _ => app "err" [.atom "bad-request"]
 end Rooc.Drv.C15
